@@ -90,10 +90,17 @@ Fixpoint load_src (fuel:nat) (dir:str) (w:list N) : outcome (prog * incmap) :=
     Ok (p, incs)
   end.
 
-Definition loads (w:list N) : outcome prog := do r <- load_src 16 cwd w; Ok (fst r).
+(* load/loads terminate the last line of the top-level script (a missing final newline is harmless) *)
+Definition with_final_newline (w:list N) : list N :=
+  match rev w with
+  | [] => w
+  | c :: _ => if (N.eqb c 10 || N.eqb c 13)%bool then w else w ++ [10%N]
+  end.
+
+Definition loads (w:list N) : outcome prog := do r <- load_src 16 cwd (with_final_newline w); Ok (fst r).
 Definition load (filename:str) : outcome prog :=
   match read_file filename with
   | None => Refuse EFileNotFound
-  | Some w => do r <- load_src 16 (dirname filename) w; Ok (fst r)
+  | Some w => do r <- load_src 16 (dirname filename) (with_final_newline w); Ok (fst r)
   end.
 End Loader.
